@@ -649,7 +649,7 @@ func isErrorConstructorCall(c *ssa.Call) bool {
 		return false
 	}
 	n := f.Name()
-	if len(n) > 3 && n[:3] == "New" && (hasSuffix(n, "Error") || hasSuffix(n, "Errorf")) {
+	if len(n) > 3 && (n[:3] == "New" || n[:3] == "new") && (hasSuffix(n, "Error") || hasSuffix(n, "Errorf")) {
 		return true
 	}
 	if len(n) > 9 && n[:9] == "wrapError" {
